@@ -924,3 +924,12 @@ Lemma growth_inputs_reorder (ps : list P) d idx i : i < length idx ->
   growth_inputs gname gbounds gibbs gbeta ps d (nth i idx 0).
 Proof. intros Hi. unfold growth_inputs. now rewrite nth_reorder. Qed.
 End GrowthInputFacts.
+
+(* ---- per-phase callbacks ------------------------------------------------------------------------------------ *)
+Lemma callback_early {P T : Type} (table : P -> T) (ps : list P) d p :
+  callback table Early ps d p = table (nth p ps d).
+Proof. reflexivity. Qed.
+
+Lemma callback_early_reorder {P T : Type} (table : P -> T) (ps : list P) d idx i : i < length idx ->
+  callback table Early (reorder d ps idx) d i = callback table Early ps d (nth i idx 0).
+Proof. intros Hi. unfold callback, closure_phase. now rewrite nth_reorder. Qed.
